@@ -439,6 +439,8 @@ package arvados
 //@ iface inode.FS pure
 //@   modifies nothing
 //@ func fileSystem.Rename$1 property C08
+//@   # the moved inode is re-parented to the TARGET directory under the new name
+//@   calls inode.SetParent#1: requires $recv == accepted && $0 == newdirf.inode && $1 == newname
 //@   ensures oldinode == nil ==> result1 == os.ErrNotExist
 //@   ensures oldinode != nil && old(has(locked, iface(oldinode)) && locked[iface(oldinode)]) ==> result0 == oldinode && result1 == ErrInvalidArgument
 //@   ensures result1 != nil ==> result0 == oldinode
